@@ -256,6 +256,25 @@ func checkSeq(r *vk.Run, seq []tagCase, dir string, idx int) {
 			r.Violation("file/lal-reader/extra", fmt.Sprintf("FlvFileReader reads a tag past the end of %+v", seq), rp)
 		}
 		rd.Dispose()
+		// the same path recorded a second time (lal names recordings <stream>-<unix second>.flv: a
+		// re-publish within the second reuses the name): whatever is on disk afterwards is one valid FLV
+		// stream - the second recording
+		if len(seq) > 0 {
+			var w2 httpflv.FlvFileWriter
+			if err := w2.Open(fn); err != nil {
+				r.Infra("open %s again: %v", fn, err)
+			}
+			w2.WriteFlvHeader()
+			tags2, want2 := flvStreamOf(seq[len(seq)-1:])
+			for _, t := range tags2 {
+				w2.WriteTag(*t)
+			}
+			w2.Dispose()
+			b2, _ := os.ReadFile(fn)
+			rp2 := rp
+			rp2.Path = "file-rerecorded"
+			checkFlvBytes(r, "file-rerecorded", b2, want2, rp2)
+		}
 		os.Remove(fn)
 		r.Class("seq/file/" + shape)
 	}
